@@ -1859,6 +1859,35 @@ def gated_update_eof():
             b.add("release", peer="p1", call="Update", w=1)
             b.adv(1)
             out.append(b.tag("seg", "gate").build())
+    # the remote half-closes (FIN) while a callback is still deciding: the NOTIFICATION it returns is still sent
+    for d in DIRS:
+        for tail in ("eof", "ka-eof", "reset"):
+            b = Sb("updeof-reply-%s-%s" % (tail, d), [peer(gates=["Update#1"], handlerReplies={"1": {"code": 3, "sub": 1, "data": [7, 7]}})])
+            b.start()
+            c = b.establish(direction=d)
+            b.upd(c, [1])
+            if tail == "ka-eof":
+                b.ka(c)
+            if tail == "reset":
+                b.rreset(c)
+            else:
+                b.rclose(c)
+            b.adv(1).add("release", peer="p1", call="Update", w=1)
+            b.adv(1).adv(70)
+            out.append(b.tag("seg", "gate", "reply").build())
+            b = Sb("openeof-veto-%s-%s" % (tail, d), [peer(gates=["OnOpenMessage#1"], openReply={"code": 2, "sub": 7, "data": [1]})])
+            b.start()
+            c = b.to_state("openSent", direction=d)
+            b.open(c)
+            if tail == "ka-eof":
+                b.ka(c)
+            if tail == "reset":
+                b.rreset(c)
+            else:
+                b.rclose(c)
+            b.adv(1).add("release", peer="p1", call="OnOpenMessage", w=1)
+            b.adv(1).adv(70)
+            out.append(b.tag("seg", "gate", "reply").build())
     return out
 
 
